@@ -354,7 +354,7 @@ def create_gif_from_frames(
             the GIF will loop indefinitely. If set to 1, the GIF will loop
             once. Added in version 0.6.0.
     """
-    images = _load_images(frames_dir)
+    images = _pad_to_common_shape(_load_images(frames_dir))
     imageio.mimsave(gif_path, images, fps=fps, loop=loop)
 
 
@@ -371,7 +371,7 @@ def create_video_from_frames(
         fps:
             The number of frames per second.
     """
-    images = _load_images(frames_dir)
+    images = _pad_to_common_shape(_load_images(frames_dir))
     resized_images = [
         resize_image_to_macro_block(image, macro_block_size=macro_block_size)
         for image in images
@@ -424,3 +424,21 @@ def _load_images(frames_dir: str) -> list:
         for frame in sorted(os.listdir(frames_dir), key=_frame_number)
     ]
     return [imageio.imread(frame) for frame in frames]
+
+
+def _pad_to_common_shape(images: list) -> list:
+    # Frames are saved with a tight bounding box, so they get wider once a
+    # longer legend label ("Job 10") appears; imageio only stacks images of
+    # one shape. Smaller frames are padded in white at the bottom and right.
+    height = max((image.shape[0] for image in images), default=0)
+    width = max((image.shape[1] for image in images), default=0)
+    padded_images = []
+    for image in images:
+        if image.shape[:2] != (height, width):
+            padded = np.full(
+                (height, width) + image.shape[2:], 255, dtype=image.dtype
+            )
+            padded[: image.shape[0], : image.shape[1]] = image
+            image = padded
+        padded_images.append(image)
+    return padded_images
